@@ -232,6 +232,25 @@ def check_case(ctx, c):
             M2 = cc.to_np(sympy.Matrix(pg.matrix).subs(comp_all, simultaneous=True)) if comp_all else cc.to_np(pg.matrix)
             if not close(M1, M2, 1e-8):
                 out.append(("matrix:gate", "%s: matrix of operation %d bound first differs from the symbolic matrix substituted afterwards (at %s)" % (desc, i, dict(zip("abc", sg)))))
+    # the other order of events: by now every gate of `pre` has been evaluated symbolically (its matrix may be cached);
+    # binding the SAME objects again must still give gates that evaluate at the bound parameters
+    if not out:
+        again = pre.bind(m)
+        for k, sg in enumerate(ASSIGN):
+            total = {sym(i + 1): sg[i] * H for i in range(3)}
+            try:
+                full = again.bind(total)
+                ok = close(numeric_unitary(full), mat(c["U"][k]), 1e-8)
+                for bop in full.operations:
+                    g = getattr(bop, "gate", None)
+                    if g is not None and getattr(sympy.Matrix(g.matrix), "free_symbols", None):
+                        ok = False
+            except Exception as ex:
+                out.append(("evaluated-then-bound:raises", "%s after the circuit had been evaluated symbolically: %s: %s" % (desc, type(ex).__name__, str(ex)[:150])))
+                break
+            if not ok:
+                out.append(("evaluated-then-bound", "%s after the circuit had been evaluated symbolically: the bound circuit at %s differs from the specification's matrix (or a bound gate's matrix still mentions symbols)" % (desc, dict(zip("abc", sg)))))
+                break
     # several partial steps = one step with the composed map
     if c["nhist"] == 2 and not out:
         first = real_circuit(c["first"])
@@ -253,12 +272,12 @@ def check_case(ctx, c):
 
 def run(ctx):
     quick = ctx.tier == "quick"
-    allops = "{1, 2, 3, 4, 5, 6, 7, 8, 9, 10, 11, 12, 13, 14}"
+    allops = "{1, 2, 3, 4, 5, 6, 7, 8, 9, 10, 11, 12, 13, 14, 15, 16}"
     allmaps = "{1, 2, 3, 4, 5, 6, 7, 8, 9}"
     if quick:
-        runs = [dict(MaxOps=1, MaxBinds=2, OpSel=allops, MapSel=allmaps), dict(MaxOps=2, MaxBinds=1, OpSel="{1, 2, 3, 4, 5, 7, 8, 10, 12}", MapSel=allmaps)]
+        runs = [dict(MaxOps=1, MaxBinds=2, OpSel=allops, MapSel=allmaps), dict(MaxOps=2, MaxBinds=1, OpSel="{1, 2, 3, 4, 5, 7, 8, 10, 12, 15, 16}", MapSel=allmaps)]
     else:
-        runs = [dict(MaxOps=2, MaxBinds=2, OpSel=allops, MapSel=allmaps), dict(MaxOps=3, MaxBinds=1, OpSel="{1, 2, 3, 4, 5, 7, 8, 10, 12}", MapSel=allmaps)]
+        runs = [dict(MaxOps=2, MaxBinds=2, OpSel=allops, MapSel=allmaps), dict(MaxOps=3, MaxBinds=1, OpSel="{1, 2, 3, 4, 5, 7, 8, 10, 12, 15, 16}", MapSel=allmaps)]
     ctx.bounds = {"run%d" % i: r for i, r in enumerate(runs)}
 
     class _R:
